@@ -103,6 +103,19 @@ func (e *CEnv) triggerRef(t Tm) {
 	e.st.triggerRef(t)
 }
 
+func (e *CEnv) tryEval(ex ast.Expr) (v *Val, ok bool) {
+	defer func() {
+		if r := recover(); r != nil {
+			if _, isEE := r.(*EngineError); isEE {
+				v, ok = nil, false
+				return
+			}
+			panic(r)
+		}
+	}()
+	return e.eval(ex), true
+}
+
 // hyp / goal evaluate a clause in assumed / to-be-proved position.
 func (e *CEnv) hyp(c Clause) Tm  { return e.withPol(1).evalBool(c) }
 func (e *CEnv) goal(c Clause) Tm { return e.withPol(-1).evalBool(c) }
@@ -830,7 +843,20 @@ func (e *CEnv) call(n *ast.CallExpr) *Val {
 		if a0.S.S == "false" {
 			return boolVal(tTrue) // the consequent may not be evaluable (e.g. speaks about an event that was not emitted)
 		}
-		return boolVal(implies(a0.S, e.eval(n.Args[1]).S))
+		// the consequent may speak about things that do not exist on this path (an event that was
+		// not emitted) although the antecedent is not syntactically false: then the implication
+		// can only hold through its antecedent
+		cons, ok := e.tryEval(n.Args[1])
+		if !ok {
+			switch {
+			case e.pol < 0:
+				return boolVal(not(a0.S))
+			case e.pol > 0:
+				return boolVal(tTrue)
+			}
+			cons = e.eval(n.Args[1]) // unknown polarity: report the error
+		}
+		return boolVal(implies(a0.S, cons.S))
 	case "iff":
 		a := e.withPol(0).args(n, 2, "iff")
 		return boolVal(eq(a[0].S, a[1].S))
@@ -1052,12 +1078,49 @@ func (e *CEnv) call(n *ast.CallExpr) *Val {
 	case "seqeq":
 		a := e.args(n, 2, "seqeq")
 		return boolVal(e.seqEq(e.toSeq(a[0]), e.toSeq(a[1])))
+	case "uvval", "uvlen":
+		// value / length of the uvarint at the start of a byte sequence (uninterpreted)
+		a := e.args(n, 1, fname)[0]
+		s0 := e.toSeq(a)
+		uf := fname + "_" + m.String()
+		if fname == "uvval" {
+			e.x.declUF(uf, fmt.Sprintf("(declare-fun %s (%s %s) %s)", uf, s0.S.Sort, m.idx(), m.intSort(intInfo{64, false})))
+			return &Val{T: types.Typ[types.Uint64], K: KInt, S: tm(m.intSort(intInfo{64, false}), "(%s %s %s)", uf, s0.S.S, s0.Fs[0].S.S)}
+		}
+		e.x.declUF(uf, fmt.Sprintf("(declare-fun %s (%s %s) %s)", uf, s0.S.Sort, m.idx(), m.idx()))
+		return &Val{T: types.Typ[types.Int], K: KInt, S: tm(m.idx(), "(%s %s %s)", uf, s0.S.S, s0.Fs[0].S.S)}
+	case "fieldval":
+		// fieldval(order, w, s): value of the w-byte integer field at the start of s in byte order 'order'
+		a := e.args(n, 3, "fieldval")
+		s0 := e.toSeq(a[2])
+		w := e.typed(a[1], types.Typ[types.Int])
+		if a[0].K != KIface {
+			e.errf("fieldval: byte order must be an interface value")
+		}
+		uf := "fieldval_" + m.String()
+		rs := m.intSort(intInfo{64, false})
+		bs := m.intSort(intInfo{8, false})
+		// the field's bytes are passed one by one (bytes beyond the width as 0): equal bytes give
+		// equal values by congruence, whichever array they live in
+		var sorts, argv []string
+		for k := 0; k < 8; k++ {
+			sorts = append(sorts, string(bs))
+			kk := m.idxLit(int64(k))
+			b := ite(m.lt(kk, w.S), sel(s0.S, m.add(s0.Fs[0].S, kk), bs), zeroOf(bs))
+			argv = append(argv, b.S)
+		}
+		e.x.declUF(uf, fmt.Sprintf("(declare-fun %s (Int Int %s %s) %s)", uf, m.idx(), strings.Join(sorts, " "), rs))
+		return &Val{T: types.Typ[types.Uint64], K: KInt, S: tm(rs, "(%s %s %s %s %s)", uf, a[0].ityp().S, a[0].ival().S, w.S.S, strings.Join(argv, " "))}
 	case "subseq":
 		// subseq(s, lo, n): the n elements of s starting at lo
 		a := e.args(n, 3, "subseq")
 		s0 := e.toSeq(a[0])
 		lo := e.x.toIdx(st, e.typed(a[1], types.Typ[types.Int]))
 		ln := e.x.toIdx(st, e.typed(a[2], types.Typ[types.Int]))
+		// the first few positions of a sub-sequence are index terms (fixed-width fields are read from them)
+		for k := int64(0); k < 8; k += 1 {
+			e.trigger(st.define("ss", m.add(lo, m.idxLit(k))))
+		}
 		return &Val{K: KSeq, S: s0.S, Fs: []*Val{scalar(nil, KInt, m.add(s0.Fs[0].S, lo)), scalar(nil, KInt, ln)}}
 	case "seqcat":
 		// seqcat(r, a, b): r == a ++ b
